@@ -90,7 +90,12 @@ func c02HTML(s *flScn) string {
 			if it.Opt == 3 {
 				st = "break-before:avoid" // (an earlier break must be found when the paragraph does not fit)
 			}
-			fmt.Fprintf(&b, `<p style="%s">%s</p>`, st, words(" "))
+			if it.Wrap == 3 {
+				// (inline level: a hidden inline box whose content is visible again)
+				fmt.Fprintf(&b, `<p style="%s"><span style="visibility:hidden"><span style="visibility:visible">%s</span></span></p>`, st, words(" "))
+			} else {
+				fmt.Fprintf(&b, `<p style="%s">%s</p>`, st, words(" "))
+			}
 		case "table":
 			st, cell := "", ""
 			tall := ""
